@@ -136,38 +136,181 @@ theorem sendBlock_written (size : Nat) (hs : 0 < size) (d : Bytes) (o : List Soc
   rw [packets_concat size hs d] at h
   exact ⟨t, h, hok⟩
 
-/-- one run of the queue: the blocks resolved `True` were written completely, in queue order, followed by a prefix of the next block -/
-theorem processQueue_written (size : Nat) (hs : 0 < size) : ∀ (q : List Bytes) (o : List SockAns),
+/-! ## the queue -/
+
+theorem allErr_sticky : ∀ (o : List SockAns), AllErr o → Sticky o
+  | [], _ => trivial
+  | .error :: o, h => fun a ha => h a (by simp [ha])
+  | .selTimeout :: o, h => absurd (h .selTimeout (by simp)) (by intro e; cases e)
+  | .wouldBlock :: o, h => absurd (h .wouldBlock (by simp)) (by intro e; cases e)
+  | .accept k :: o, h => absurd (h (.accept k) (by simp)) (by intro e; cases e)
+
+/-- `send_data` on a sticky socket: after `True` the socket is still sticky, after `False` it only fails any more -/
+theorem sendData_sticky : ∀ (o : List SockAns) (d : Bytes), Sticky o →
+    ((sendData d o).outcome = .ok → Sticky (sendData d o).rest) ∧ ((sendData d o).outcome = .fail → AllErr (sendData d o).rest)
+  | [], d, _ => by simp [sendData]
+  | .selTimeout :: o, d, h => by simpa [sendData] using sendData_sticky o d h
+  | .wouldBlock :: o, d, h => by simpa [sendData] using sendData_sticky o d h
+  | .error :: o, d, h => by
+    simp only [sendData]
+    exact ⟨(fun e => nomatch e), (fun _ => h)⟩
+  | .accept k :: o, d, h => by
+    simp only [sendData]
+    split
+    · exact sendData_sticky o _ h
+    · exact ⟨(fun _ => h), (fun e => nomatch e)⟩
+
+/-- on a socket that only fails nothing is written and nothing succeeds -/
+theorem sendData_allErr : ∀ (o : List SockAns) (d : Bytes), AllErr o →
+    (sendData d o).written = [] ∧ AllErr (sendData d o).rest ∧ (sendData d o).outcome ≠ .ok
+  | [], d, _ => by simp [sendData, AllErr]
+  | .error :: o, d, h => by
+    refine ⟨rfl, ?_, ?_⟩
+    · intro a ha; exact h a (by simp only [sendData] at ha; simp [ha])
+    · simp [sendData]
+  | .selTimeout :: o, d, h => absurd (h .selTimeout (by simp)) (by intro e; cases e)
+  | .wouldBlock :: o, d, h => absurd (h .wouldBlock (by simp)) (by intro e; cases e)
+  | .accept k :: o, d, h => absurd (h (.accept k) (by simp)) (by intro e; cases e)
+
+theorem sendPackets_sticky : ∀ (ps : List Bytes) (o : List SockAns), Sticky o →
+    ((sendPackets ps o).outcome = .ok → Sticky (sendPackets ps o).rest) ∧ ((sendPackets ps o).outcome = .fail → AllErr (sendPackets ps o).rest)
+  | [], o, h => by simp [sendPackets, h]
+  | p :: ps, o, h => by
+    have h1 := sendData_sticky o p h
+    simp only [sendPackets]
+    cases hr : (sendData p o).outcome with
+    | ok => simp only; exact sendPackets_sticky ps _ (h1.1 hr)
+    | fail => simp only; exact ⟨(fun e => nomatch e), (fun _ => h1.2 hr)⟩
+    | pending => simp only; exact ⟨(fun e => nomatch e), (fun e => nomatch e)⟩
+
+theorem sendPackets_allErr : ∀ (ps : List Bytes) (o : List SockAns), AllErr o →
+    (sendPackets ps o).written = [] ∧ AllErr (sendPackets ps o).rest
+  | [], o, h => by simp [sendPackets, h]
+  | p :: ps, o, h => by
+    obtain ⟨hw, hr, hne⟩ := sendData_allErr o p h
+    simp only [sendPackets]
+    cases ho : (sendData p o).outcome with
+    | ok => exact absurd ho hne
+    | fail => exact ⟨hw, hr⟩
+    | pending => exact ⟨hw, hr⟩
+
+theorem processQueue_allErr (size : Nat) : ∀ (q : List Bytes) (o : List SockAns), AllErr o → (processQueue size q o).written = []
+  | [], o, _ => by simp [processQueue, QRes.written]
+  | b :: q, o, h => by
+    obtain ⟨hw, hr⟩ := sendPackets_allErr (Model.SecsI.chunks size b) o h
+    have hw' : (sendBlock size b o).written = [] := hw
+    have hr' : AllErr (sendBlock size b o).rest := hr
+    have ih := processQueue_allErr size q _ hr'
+    simp only [QRes.written] at ih
+    cases ho : (sendBlock size b o).outcome with
+    | ok => simp only [processQueue, ho, QRes.written, List.flatten_cons, hw', ih, List.append_nil]
+    | fail => simp only [processQueue, ho, QRes.written, List.flatten_cons, hw', ih, List.append_nil]
+    | pending => simp only [processQueue, ho, QRes.written, List.flatten_cons, hw', List.flatten_nil, List.append_nil]
+
+/-- **every block gets its own result**: for each block taken from the queue what was written for it is a prefix of it, and all of it if it
+was resolved `True` (for every oracle; the run goes on after a failed block) -/
+theorem processQueue_blocks (size : Nat) (hs : 0 < size) : ∀ (q : List Bytes) (o : List SockAns),
+    (processQueue size q o).resolved.length ≤ q.length
+    ∧ (processQueue size q o).parts.length = (processQueue size q o).resolved.length + (if (processQueue size q o).pending then 1 else 0)
+    ∧ (∀ x ∈ List.zip (processQueue size q o).parts q, x.1 <+: x.2)
+    ∧ (∀ x ∈ List.zip (processQueue size q o).resolved (List.zip (processQueue size q o).parts q), x.1 = true → x.2.1 = x.2.2)
+    ∧ ((processQueue size q o).pending = false → (processQueue size q o).resolved.length = q.length ∧ (processQueue size q o).queue = [])
+  | [], o => by simp [processQueue]
+  | b :: q, o => by
+    obtain ⟨t1, h1, hok1⟩ := sendBlock_written size hs b o
+    obtain ⟨a1, a2, a3, a4, a5⟩ := processQueue_blocks size hs q (sendBlock size b o).rest
+    have hpre : (sendBlock size b o).written <+: b := ⟨t1, h1.symm⟩
+    cases hr : (sendBlock size b o).outcome with
+    | ok =>
+      have hp : (sendBlock size b o).written = b := by have := hok1 hr; rw [this, List.append_nil] at h1; exact h1.symm
+      simp only [processQueue, hr]
+      refine ⟨by simp; omega, by simp [a2]; omega, ?_, ?_, ?_⟩
+      · intro x hx
+        simp only [List.zip_cons_cons, List.mem_cons] at hx
+        rcases hx with rfl | hx
+        · exact hpre
+        · exact a3 x hx
+      · intro x hx hres
+        simp only [List.zip_cons_cons, List.mem_cons] at hx
+        rcases hx with rfl | hx
+        · exact hp
+        · exact a4 x hx hres
+      · intro hpend
+        obtain ⟨b1, b2⟩ := a5 hpend
+        exact ⟨by simp [b1], b2⟩
+    | fail =>
+      simp only [processQueue, hr]
+      refine ⟨by simp; omega, by simp [a2]; omega, ?_, ?_, ?_⟩
+      · intro x hx
+        simp only [List.zip_cons_cons, List.mem_cons] at hx
+        rcases hx with rfl | hx
+        · exact hpre
+        · exact a3 x hx
+      · intro x hx hres
+        simp only [List.zip_cons_cons, List.mem_cons] at hx
+        rcases hx with rfl | hx
+        · simp at hres
+        · exact a4 x hx hres
+      · intro hpend
+        obtain ⟨b1, b2⟩ := a5 hpend
+        exact ⟨by simp [b1], b2⟩
+    | pending =>
+      simp only [processQueue, hr]
+      refine ⟨by simp, by simp, ?_, by simp, by simp⟩
+      intro x hx
+      simp only [List.zip_cons_cons, List.zip_nil_left, List.mem_cons, List.not_mem_nil, or_false] at hx
+      subst hx
+      exact hpre
+
+theorem leadTrue_le : ∀ (l : List Bool), leadTrue l ≤ l.length
+  | [] => by simp [leadTrue]
+  | true :: l => by simp [leadTrue]; exact leadTrue_le l
+  | false :: l => by simp [leadTrue]
+
+theorem leadTrue_replicate (n : Nat) : leadTrue (List.replicate n true) = n := by
+  induction n with
+  | zero => rfl
+  | succ n ih => simp [List.replicate_succ, leadTrue, ih]
+
+/-- **on a socket that stays failed once it failed**: the byte stream of one run is the leading blocks resolved `True`, complete and in
+queue order, followed by a prefix of the next block — and nothing of any later block -/
+theorem processQueue_written (size : Nat) (hs : 0 < size) : ∀ (q : List Bytes) (o : List SockAns), Sticky o →
     let r := processQueue size q o
-    let n := (r.resolved.filter (· = true)).length
+    let n := leadTrue r.resolved
     ∃ part t, r.written = (q.take n).flatten ++ part ∧ (q.drop n).head?.getD [] = part ++ t
       ∧ (r.resolved = List.replicate q.length true → part = [] ∧ r.queue = [] ∧ r.pending = false)
       ∧ n ≤ q.length
-  | [], o => ⟨[], [], by simp [processQueue], by simp [processQueue], by simp [processQueue], by simp [processQueue]⟩
-  | b :: q, o => by
+  | [], o, _ => ⟨[], [], by simp [processQueue, QRes.written, leadTrue], by simp [processQueue, leadTrue], by simp [processQueue],
+      by simp [processQueue, leadTrue]⟩
+  | b :: q, o, hst => by
     obtain ⟨t1, h1, hok1⟩ := sendBlock_written size hs b o
+    have hsp := sendPackets_sticky (Model.SecsI.chunks size b) o hst
     simp only [processQueue]
     cases hr : (sendBlock size b o).outcome with
     | ok =>
       simp only
-      obtain ⟨part, t, hw, hh, hall, hn⟩ := processQueue_written size hs q (sendBlock size b o).rest
+      obtain ⟨part, t, hw, hh, hall, hn⟩ := processQueue_written size hs q (sendBlock size b o).rest (hsp.1 hr)
       have ht1 : t1 = [] := hok1 hr
+      have hp : (sendBlock size b o).written = b := by rw [ht1, List.append_nil] at h1; exact h1.symm
       refine ⟨part, t, ?_, ?_, ?_, ?_⟩
-      · simp only [List.filter_cons_of_pos, List.length_cons, List.take_succ_cons, List.flatten_cons, decide_true]
-        have hp : (sendBlock size b o).written = b := by rw [ht1, List.append_nil] at h1; exact h1.symm
+      · simp only [QRes.written, leadTrue, List.flatten_cons, List.take_succ_cons] at hw ⊢
         rw [hw, List.append_assoc, hp]
-      · simpa using hh
+      · simpa [leadTrue] using hh
       · intro hrep
         simp only [List.length_cons, List.replicate_succ, List.cons.injEq, true_and] at hrep
         exact hall hrep
-      · simp only [List.filter_cons_of_pos, List.length_cons, decide_true]; omega
+      · simp only [leadTrue, List.length_cons]; omega
     | fail =>
       simp only
-      refine ⟨(sendBlock size b o).written, t1, by simp, by simpa using h1, ?_, by simp⟩
-      intro hrep; simp [List.replicate_succ] at hrep
+      have hall : AllErr (sendBlock size b o).rest := hsp.2 hr
+      have hw0 := processQueue_allErr size q _ hall
+      refine ⟨(sendBlock size b o).written, t1, ?_, by simpa [leadTrue] using h1, ?_, by simp [leadTrue]⟩
+      · simp only [QRes.written, leadTrue, List.flatten_cons] at hw0 ⊢
+        simp [hw0]
+      · intro hrep; simp [List.replicate_succ] at hrep
     | pending =>
       simp only
-      refine ⟨(sendBlock size b o).written, t1, by simp, by simpa using h1, ?_, by simp⟩
+      refine ⟨(sendBlock size b o).written, t1, by simp [QRes.written, leadTrue], by simpa [leadTrue] using h1, ?_, by simp [leadTrue]⟩
       intro hrep; simp [List.replicate_succ] at hrep
 
 end SecsModel.Proofs.HsmsTcpSend
